@@ -1,6 +1,7 @@
 package treeset
 
 import (
+	"github.com/emirpasic/gods/v2/sets"
 	"github.com/emirpasic/gods/v2/containers"
 	rbt "github.com/emirpasic/gods/v2/trees/redblacktree"
 	vl "github.com/emirpasic/gods/v2/zzvlib"
@@ -76,4 +77,59 @@ func VHIter() {
 	s := VGSmall()
 	seq := s.Values()
 	containers.VIterStep(func() containers.IteratorWithIndex[int] { it := s.Iterator(); return &it }, seq, s)
+}
+
+// VHEnum: Each/Any/All/Find/Select/Map with arbitrary predicate and mapping functions (C14).
+func VHEnum() {
+	s := VGSmall()
+	containers.VEnumStep(containers.VEnum{Recv: s, Indexed: true,
+		Seq:    func(c any) ([]int, []int) { vs := c.(*Set[int]).Values(); return containers.VIdx(len(vs)), vs },
+		Each:   s.Each, Any: s.Any, All: s.All, Find: s.Find,
+		Select: func(f func(a, b int) bool) any { return s.Select(f) },
+		Map: func(f func(a, b int) (int, int)) any {
+			return s.Map(func(i, x int) int { _, y := f(i, x); return y })
+		},
+		Build: func(as, bs []int) any { return NewWith[int](s.tree.Comparator, bs...) },
+		Touch: func(c any) {
+			r := c.(*Set[int])
+			for _, x := range r.Values() {
+				r.Remove(x)
+			}
+			r.Add(v.Int("t"))
+		},
+	})
+}
+
+// VHAlgebra: set algebra on two arbitrary sets (C13); "alias" makes them the same object.
+func VHAlgebra() {
+	a := VGSmall()
+	b := a
+	if !v.Bool("alias") {
+		b = VGSmall()
+	}
+	sets.VAlgStep(sets.VAlg{A: a, B: b, Ordered: true,
+		Apply: func(op int) any {
+			switch op {
+			case 0:
+				return a.Intersection(b)
+			case 1:
+				return a.Union(b)
+			}
+			return a.Difference(b)
+		},
+		Values: func(c any) []int { return c.(*Set[int]).Values() },
+		Touch: func(c any, x int) {
+			s := c.(*Set[int])
+			for _, y := range s.Values() {
+				s.Remove(y)
+			}
+			s.Add(x)
+		},
+	})
+}
+
+// VHSnap: returned slices are snapshots, argument slices are copied, GetSortedValues leaves the container alone (C16).
+func VHSnap() {
+	c := VGSmall()
+	containers.VSnapStep(containers.VSnap{C: c, Mutate: []func(){c.Clear, func() { c.Add(v.Int("m")) }, func() { c.Remove(v.Int("m")) }}, AddArgs: []func([]int){func(a []int) { c.Add(a...) }}, New: func(a []int) containers.Container[int] { return NewWith[int](vl.Cmp, a...) }})
 }
